@@ -575,6 +575,10 @@ def main(argv):
                 steer["focus"] = True
             except Exception as e:
                 steer["focus"] = "focus() failed: %r" % (e,)
+    if os.environ.get("VERIF_BUDGET_MULT"):
+        # development aid: a larger sample on the unchanged tree (what a check does by itself when the source changed)
+        n = n * max(1, int(os.environ["VERIF_BUDGET_MULT"]))
+        steer["budget_multiplier"] = "forced x%s" % os.environ["VERIF_BUDGET_MULT"]
     rng = random.Random(seed * 1000003 + int(hashlib.sha256(pid.encode()).hexdigest()[:6], 16))
     corpus = list(mod.corpus())
     gen = list(mod.generate(rng, n))
